@@ -3,10 +3,40 @@ from props.c05 import adv_size
 
 FAULTS_FAIL = ("status", "empty", "hang", "midhang", "trickle", "reset", "stall", "abort", "shortcl", "finmid", "hshang")
 
+def _oracle_staleq(case, impl):
+    from props.c01 import oracle_staleq
+    return oracle_staleq(case, impl)
+
+
 def oracle_upfault(case, impl):
     """C03 direct checks: completion within timeout + slack; SERVFAIL for every failing fault;
     the upstream's message when a complete one arrived."""
     f = case.split(" ")
+    if f[0] == "upfpair":
+        # upfpair <proto> <p1> <script1> <p2> <script2>: two exchanges back to back behind the 1500 ms proxy
+        outs = impl.split(" | ")
+        if len(outs) != 2:
+            return "unexpected harness output " + impl[:80]
+        for k, (p, sc, o) in enumerate(((f[2], f[3], outs[0]), (f[4], f[5], outs[1]))):
+            parts = o.split(" ")
+            if len(parts) != 2 or parts[0] in ("TIMEOUT", "ERR", "close", "SHORT"):
+                return "exchange %d of the pair: no reply within timeout + slack (%s)" % (k + 1, o[:40])
+            if parts[1] != "lat=ok":
+                return "exchange %d of the pair took longer than timeout + 1 s" % (k + 1)
+            rep = unhex(parts[0])
+            if f[1] == "tcp":
+                rep = rep[2:]
+            d = sc.split(",")[-1].split(":")
+            in_time = int(d[0]) < 1500
+            servfail = len(rep) >= 12 and rep[2] == 0x80 and rep[3] == 0x02 and rep[6:12] == bytes(6) and len(rep) < 300
+            if not in_time and not servfail:
+                return "exchange %d: its answer arrives after the deadline but the reply is not SERVFAIL" % (k + 1)
+            if in_time and (servfail or len(rep) != int(d[2])):
+                return ("exchange %d of the pair (same ID as exchange %d, another question): the upstream answered it in time with a "
+                        "%s-byte message, the client got %s - the stray answer of the other exchange (%s bytes), which arrived "
+                        "in between, if the lengths agree" % (k + 1, 2 - k, d[2], "SERVFAIL" if servfail else "%d bytes" % len(rep),
+                                                               (f[3] if k else f[5]).split(",")[-1].split(":")[2]))
+        return None
     which, proto, payload, fault = f[1], f[2], unhex(f[3]), f[4:]
     parts = impl.split(" ")
     if len(parts) != 2 or not parts[1].startswith("lat="):
@@ -37,7 +67,9 @@ def oracle_upfault(case, impl):
 SPEC = dict(
     lean_module="NV.Props.C03",
     areas=[dict(name="upfault", n_quick=120, n_thorough=3000, shards_thorough=8, oracle=oracle_upfault, timeout=1200,
-                nontrivial=lambda c, i: True)],
+                nontrivial=lambda c, i: True),
+           # one long-lived process: 70 000 exchanges in a row with a plain-DNS upstream (per-exchange counters must not run out)
+           dict(name="staleq", n_quick=2, n_thorough=20, oracle=_oracle_staleq, timeout=600)],
     level_text="Theorems over the upstream model: the DNS53 read loop returns the first in-time, long-enough, ID-matching datagram and "
                "otherwise fails exactly at the deadline (completion time <= deadline for every arrival sequence); readDNSResponse's "
                "result is independent of how the body is chunked; every fault of the menu maps to SERVFAIL and a complete message to "
